@@ -7,6 +7,7 @@
 package main
 
 import (
+	"context"
 	"database/sql"
 	"encoding/json"
 	"errors"
@@ -31,7 +32,7 @@ type Item struct {
 	K   string `json:"k"`
 	M   int64  `json:"m,omitempty"`   // write: marker; save/rbto: save-point name id
 	Chk bool   `json:"chk,omitempty"` // write/read: return the statement's error; child: return the child's error
-	Via   string `json:"via,omitempty"`   // write: "" tx.Create(&row) | "exec" tx.Exec("INSERT ..") | "kept" through ONE chained handle h := tx.Model(&Marker{}) kept by the block body and reused for all its kept writes
+	Via   string `json:"via,omitempty"`   // write: "" tx.Create(&row) | "exec" tx.Exec("INSERT ..") | "kept" through ONE chained handle h := tx.Model(&Marker{}) kept by the block body and reused for all its kept writes | write and read: "sess" tx.Session(&Session{}) | "sess_prep" tx.Session(&Session{PrepareStmt: true}) | "ctx" tx.WithContext(ctx): a handle derived from the block's handle for this one call
 	Empty bool   `json:"empty,omitempty"` // kept write: when it creates the handle, its first use is an update with an empty change set (no SQL)
 	Rcv bool   `json:"rcv,omitempty"` // child: the call is wrapped in a recover(); a panic of the child is swallowed
 	B   *Blk   `json:"b,omitempty"`   // child
@@ -206,6 +207,19 @@ type runner struct {
 	notes    []string
 }
 
+// derive: the handle a call is made on — the block's handle itself or a derivation of it.
+func derive(h *gorm.DB, via string) *gorm.DB {
+	switch via {
+	case "sess":
+		return h.Session(&gorm.Session{})
+	case "sess_prep":
+		return h.Session(&gorm.Session{PrepareStmt: true})
+	case "ctx":
+		return h.WithContext(context.Background())
+	}
+	return h
+}
+
 const rawInsert = "INSERT INTO markers (m) VALUES (?)"
 
 func spName(m int64) string { return fmt.Sprintf("user_sp_%d", m) }
@@ -233,7 +247,7 @@ func (r *runner) body(h *gorm.DB, b *Blk, log *[]Obs) error {
 				}
 				res = kept.Create(&Marker{M: it.M})
 			default:
-				res = h.Create(&Marker{M: it.M})
+				res = derive(h, it.Via).Create(&Marker{M: it.M})
 			}
 			*log = append(*log, Obs{K: "write", M: it.M, Ret: classify(res.Error)})
 			if it.Chk && res.Error != nil {
@@ -241,7 +255,7 @@ func (r *runner) body(h *gorm.DB, b *Blk, log *[]Obs) error {
 			}
 		case "read":
 			var n int64
-			res := h.Model(&Marker{}).Count(&n)
+			res := derive(h, it.Via).Model(&Marker{}).Count(&n)
 			if res.Error != nil {
 				n = 0
 			}
@@ -387,7 +401,15 @@ func run(in Input) Observed {
 		// manual: the documented Begin / defer-rollback-on-panic / Rollback-on-error / Commit pattern
 		tx := e.db.Begin()
 		if tx.Error != nil {
+			// the idiomatic cleanup (defer tx.Rollback(), or Commit) on the handle of a failed Begin
 			obs.Ret = classify(tx.Error)
+			for _, x := range in.Extra {
+				if x == "commit" {
+					obs.Extra = append(obs.Extra, classify(tx.Commit().Error))
+				} else {
+					obs.Extra = append(obs.Extra, classify(tx.Rollback().Error))
+				}
+			}
 			return
 		}
 		defer func() {
@@ -549,6 +571,8 @@ func (g *gen) write() Item {
 		// kept writes return their error: a failed call leaves its error in the kept handle
 		// (gorm's documented behaviour of a reused chain), which the programs do not go on using
 		it.Via, it.Chk, it.Empty = "kept", true, g.r.Bool()
+	case c < 6:
+		it.Via = lib.Pick(g.r, []string{"sess", "sess_prep", "ctx"})
 	}
 	return it
 }
@@ -585,7 +609,7 @@ func (g *gen) blk(depth, maxDepth int, edge bool) Blk {
 		case c < 7:
 			b.Items = append(b.Items, g.write())
 		case c < 9:
-			b.Items = append(b.Items, Item{K: "read", Chk: r.Bool()})
+			b.Items = append(b.Items, Item{K: "read", Chk: r.Bool(), Via: lib.Pick(r, []string{"", "", "sess", "sess_prep", "ctx"})})
 		case c < 16:
 			if depth < maxDepth {
 				cb := g.blk(depth+1, maxDepth, edge)
@@ -645,13 +669,14 @@ func shapeBlk(b *Blk, sb *strings.Builder) {
 		case "write":
 			sb.WriteByte('w')
 			if it.Via != "" {
-				sb.WriteString(it.Via[:1])
+				sb.WriteString(it.Via)
 			}
 			if it.Empty {
 				sb.WriteByte('0')
 			}
 		case "read":
 			sb.WriteByte('r')
+			sb.WriteString(it.Via)
 		case "save":
 			fmt.Fprintf(sb, "s%d", it.M)
 		case "rbto":
@@ -758,6 +783,8 @@ func cloneBlk(b *Blk, next *int64) Blk {
 				c.Items[i].Via = "exec"
 			case 2:
 				c.Items[i].Via, c.Items[i].Empty = "kept", *next%2 == 0
+			case 3:
+				c.Items[i].Via = []string{"sess", "sess_prep", "ctx"}[*next%3]
 			}
 		}
 		if it.B != nil {
@@ -879,6 +906,7 @@ func main() {
 				in := Input{Top: "block", Body: cloneBlk(&t, &next), Cfg: c, Fault: -1, Phase: "exec"}
 				if (ti+ci)%5 == 4 {
 					in.Top = "manual"
+					in.Extra = [][]string{{"rollback"}, {"commit"}, nil}[ti%3]
 				}
 				free := add("sweep", in)
 				for k := range free.Ops {
@@ -911,9 +939,9 @@ func main() {
 		in.Cfg.Report = r.Chance(3, 4)
 		maxDepth := lib.Pick(r, []int{1, 2, 2, 3, 3, 4})
 		in.Body = g.blk(0, maxDepth, edge)
-		if in.Top == "manual" && edge {
+		if in.Top == "manual" && (edge || r.Bool()) { // e.g. the deferred tx.Rollback() of the idiom
 			for k := r.Range(1, 2); k > 0; k-- {
-				in.Extra = append(in.Extra, lib.Pick(r, []string{"commit", "rollback"}))
+				in.Extra = append(in.Extra, lib.Pick(r, []string{"commit", "rollback", "rollback"}))
 			}
 		}
 		kind := "main"
@@ -929,7 +957,11 @@ func main() {
 				if in.Cfg.Prep && r.Bool() {
 					ph = "prepare"
 				}
-				faulted(kind, in, free, r.Intn(n), ph)
+				k := r.Intn(n)
+				if in.Top == "manual" && tries == 0 && r.Bool() {
+					k = 0 // BEGIN fails; the program still cleans up on the handle it got
+				}
+				faulted(kind, in, free, k, ph)
 			}
 		}
 	}
